@@ -114,6 +114,15 @@ def splice(dst):
     return shas
 
 
+def splice_nocheck(dst):
+    """Splice without comparing against /repo (development / mutation testing on a patched scratch copy)."""
+    for rel, absf in sorted(spliced_files().items()):
+        target = os.path.join(dst, rel)
+        add = "\n%s\n#[cfg(kani)]\n#[path = \"%s\"]\npub(crate) mod verif_kani;\n" % (SPLICE_MARK, absf)
+        with open(target, "ab") as f:
+            f.write(add.encode())
+
+
 def prepare(tag=None):
     dst = make_scratch(tag)
     copy_repo(dst)
